@@ -172,15 +172,17 @@ def unsubscribe (s : State) (c : Nat) (ch : Bytes) : State :=
         fun x => { x with active := x.active.erase ch }
     else s
 
+/-- `CLIENT_CONNECTIONS.dec(); CONNECTION_LOST.labels(ak).inc()` -/
+def countLost (s : State) (l : Option Bytes) : State :=
+  { s with gConns := s.gConns - 1, cLost := fun l' => if l' = l then s.cLost l' + 1 else s.cLost l' }
+
 /-- `Connection.connection_lost(reason)` -/
 def connectionLost (s : State) (c : Nat) : State :=
   match s.conn c with
   | none => s
   | some x =>
     if x.registered then
-      let s1 := { s with gConns := s.gConns - 1,
-                         cLost := fun l => if l = x.ak then s.cLost l + 1 else s.cLost l }
-      let s2 := x.active.foldl (fun s ch => unsubscribe s c ch) s1
+      let s2 := x.active.foldl (fun s ch => unsubscribe s c ch) (countLost s x.ak)
       s2.upd c fun x => { x with registered := false }
     else s
 
@@ -215,7 +217,13 @@ def publish (s : State) (src : Nat) (x : Conn) (ident ch p : Bytes) : State :=
       grantedOk := recips.all fun d => match s.conn d with
         | some y => decide (ch ∈ y.granted) | none => false }] }
 
-/-! ### handlers -/
+/-! ### handlers
+
+Every state change below goes through one of a small set of named primitives (`logAct`, `closeT`,
+`crashClose`, `subscribe`, `unsubscribe`, `connectionLost`, `setAuth`, `pauseReading`,
+`resumeReading`, `addPending`, `dropPending`, `noteSub`, `noteUnsub`, `publish`, `setBuf`,
+`addConn`, `peerClose`, `markGone`, `armDeadline`, `clearDeadline`, `tick`), so that an invariant is
+established by one preservation lemma per primitive (Lemmas/BrokerPres.lean). -/
 
 inductive Ctl
   | cont   -- handler returned a falsy value: the loop goes on
@@ -223,23 +231,30 @@ inductive Ctl
   | crash  -- an exception that is not a ProtocolException escaped
 deriving DecidableEq, Repr
 
+/-- the successful tail of `authenticate`: identity, ACLs, gauge counts follow the connection -/
+def setAuth (s : State) (c : Nat) (ident digest : Bytes) (row : Row) : State :=
+  match s.conn c with
+  | none => s
+  | some x =>
+    let g := x.active.foldl (fun g ch => bump (bump g x.ak ch (-1)) (some ident) ch 1) s.gSubs
+    ({ s with gSubs := g,
+              labels := if some ident ∈ s.labels then s.labels else s.labels ++ [some ident] }).upd c
+      fun x => { x with
+        ak := some ident, pubchans := row.pubchans, subchans := row.subchans,
+        authed := x.authed ++ [(ident, digest, row)] }
+
+/-- does the verdict accept this AUTH?  (`akrow` truthy and `hashsecret(authrand, secret) == digest`) -/
+def authOk (cfg : Cfg) (x : Conn) (digest : Bytes) : Lookup → Option Row
+  | .row row => if cfg.H (x.nonce ++ row.secret) = digest then some row else none
+  | .missing => none
+  | .raised => none
+
 /-- `authenticate(ident, secret, akrow)` up to and including `CONNECTION_READY`; `true` = accepted -/
 def authenticate (cfg : Cfg) (s : State) (c : Nat) (x : Conn) (ident digest : Bytes) (r : Lookup) :
     State × Bool :=
-  match r with
-  | .raised => (errorClose s c, false)
-  | .missing => (errorClose s c, false)
-  | .row row =>
-    if cfg.H (x.nonce ++ row.secret) = digest then
-      -- the subscription gauge counts follow the connection to its new identity
-      let g := x.active.foldl (fun g ch => bump (bump g x.ak ch (-1)) (some ident) ch 1) s.gSubs
-      let s0 := { s with gSubs := g,
-                         labels := if some ident ∈ s.labels then s.labels else s.labels ++ [some ident] }
-      let s1 := s0.upd c fun x => { x with
-        ak := some ident, pubchans := row.pubchans, subchans := row.subchans,
-        authed := x.authed ++ [(ident, digest, row)] }
-      (logAct s1 c (.setLimits (limit OP_PUBLISH * 50)), true)
-    else (errorClose s c, false)
+  match authOk cfg x digest r with
+  | some row => (logAct (setAuth s c ident digest row) c (.setLimits (limit OP_PUBLISH * 50)), true)
+  | none => (errorClose s c, false)
 
 def pauseReading (s : State) (c : Nat) : State :=
   match s.conn c with
@@ -252,6 +267,30 @@ def resumeReading (s : State) (c : Nat) : State :=
   | some x => if x.closing || !x.paused then s
               else logAct (s.upd c fun x => { x with paused := false }) c .resumeReading
   | none => s
+
+def addPending (s : State) (c : Nat) (ident digest : Bytes) : State :=
+  s.upd c fun x => { x with pending := x.pending ++ [(ident, digest)] }
+
+def dropPending (s : State) (c : Nat) (i : Nat) : State :=
+  s.upd c fun x => { x with pending := x.pending.eraseIdx i }
+
+/-- ghost bookkeeping for a processed SUBSCRIBE (`ok` = it passed the ACL) -/
+def noteSub (s : State) (c : Nat) (ch : Bytes) (ok : Bool) : State :=
+  s.upd c fun y => { y with
+    granted := if ok ∧ ch ∉ y.granted then y.granted ++ [ch] else y.granted
+    lastReq := (ch, true) :: y.lastReq }
+
+/-- ghost bookkeeping for a processed UNSUBSCRIBE -/
+def noteUnsub (s : State) (c : Nat) (ch : Bytes) : State :=
+  s.upd c fun y => { y with lastReq := (ch, false) :: y.lastReq }
+
+/-- `on_subscribe` from `self.server.subscribe(self, chan)` on, with the ghost bookkeeping -/
+def doSubscribe (s : State) (c : Nat) (ch : Bytes) (ok : Bool) : State :=
+  noteSub (subscribe s c ch) c ch ok
+
+/-- `on_unsubscribe`, with the ghost bookkeeping -/
+def doUnsubscribe (s : State) (c : Nat) (ch : Bytes) : State :=
+  noteUnsub (unsubscribe s c ch) c ch
 
 /-- `Connection.message_received(opcode, message)` for one decoded frame -/
 def messageReceived (cfg : Cfg) (s : State) (c : Nat) (f : Frame) : State × Ctl :=
@@ -272,24 +311,19 @@ def messageReceived (cfg : Cfg) (s : State) (c : Nat) (f : Frame) : State × Ctl
           | .sync tbl =>
             let r := match tbl ident with | some row => Lookup.row row | none => Lookup.missing
             ((authenticate cfg s c x ident digest r).1, .cont)
-          | .async =>
-            (pauseReading (s.upd c fun x => { x with pending := x.pending ++ [(ident, digest)] }) c, .brk)
+          | .async => (pauseReading (addPending s c ident digest) c, .brk)
       | .publish ident ch p =>
         if some ident ≠ x.ak then (errorClose s c, .cont)
         else if ch ∉ x.pubchans then (errorClose s c, .cont)
         else if !x.registered then (s, .crash)
         else (publish s c x ident ch p, .cont)
       | .subscribe _ ch =>
-        let s1 := if ch ∈ x.subchans then s else errorClose s c
+        let s1 := if ch ∈ x.subchans then s else errorClose s c   -- no `return` after the error
         if !x.registered then (s1, .crash)
-        else
-          let s2 := subscribe s1 c ch
-          (s2.upd c fun y => { y with
-              granted := if ch ∈ x.subchans ∧ ch ∉ y.granted then y.granted ++ [ch] else y.granted
-              lastReq := (ch, true) :: y.lastReq }, .cont)
+        else (doSubscribe s1 c ch (decide (ch ∈ x.subchans)), .cont)
       | .unsubscribe _ ch =>
         if !x.registered then (s, .crash)
-        else ((unsubscribe s c ch).upd c fun y => { y with lastReq := (ch, false) :: y.lastReq }, .cont)
+        else (doUnsubscribe s c ch, .cont)
 
 /-- `process_pending()`: iterate the unpacker over `buf`, dispatching each frame; returns the state,
     the bytes left in the unpacker and how the loop ended.  (While the loop runs the `buf` field of
@@ -312,10 +346,40 @@ decreasing_by
 def setBuf (s : State) (c : Nat) (b : Bytes) : State := s.upd c fun x => { x with buf := b }
 
 /-- an exception escaped `data_received`: asyncio force-closes this transport -/
-def forceClose (s : State) (c : Nat) : State :=
+def crashClose (s : State) (c : Nat) : State :=
   (logAct s c .crashed).upd c Conn.beginClose
 
 def gracePeriodMs : Nat := 60000
+
+/-- `connection_made`: a fresh record whose first action is the OP_INFO challenge -/
+def addConn (cfg : Cfg) (s : State) (c : Nat) (nonce : Bytes) : State :=
+  let x : Conn := { nonce := nonce,
+                    out := [(s.now, .write ⟨UInt8.ofNat OP_INFO, pack8 cfg.name ++ nonce⟩)] }
+  { s with conn := fun k => if k = c then some x else s.conn k,
+           ids := s.ids ++ [c], gConns := s.gConns + 1, cMade := s.cMade + 1 }
+
+/-- the peer closed or the transport failed: it starts closing without any action of the broker -/
+def peerClose (s : State) (c : Nat) : State :=
+  match s.conn c with
+  | none => s
+  | some x => if x.closing then s else (logAct s c .peerClosed).upd c Conn.beginClose
+
+/-- the transport reports the connection lost -/
+def markGone (s : State) (c : Nat) : State :=
+  (peerClose s c).upd c fun x => { x with gone := true }
+
+/-- `lost c`: the transport is gone and `connection_lost` runs.  (The two parts touch disjoint fields
+    and commute; the registry part is written first so that every intermediate state satisfies the
+    registry invariant.) -/
+def lostConn (s : State) (c : Nat) : State := markGone (connectionLost s c) c
+
+def armDeadline (s : State) (c : Nat) : State :=
+  logAct (s.upd c fun x => { x with deadline := some (s.now + gracePeriodMs) }) c .pausedW
+
+def clearDeadline (s : State) (c : Nat) (a : Act) : State :=
+  logAct (s.upd c fun x => { x with deadline := none }) c a
+
+def tick (s : State) (ms : Nat) : State := { s with now := s.now + ms }
 
 /-! ### the transition function -/
 
@@ -323,31 +387,19 @@ def step (cfg : Cfg) (s : State) : Event → State
   | .connect c nonce =>
     match s.conn c with
     | some _ => s                          -- ids are fresh; a repeated id is ignored
-    | none =>
-      let x : Conn := { nonce := nonce,
-                        out := [(s.now, .write ⟨UInt8.ofNat OP_INFO, pack8 cfg.name ++ nonce⟩)] }
-      { s with conn := fun k => if k = c then some x else s.conn k,
-               ids := s.ids ++ [c], gConns := s.gConns + 1, cMade := s.cMade + 1 }
+    | none => addConn cfg s c nonce
   | .data c b =>
     match s.conn c with
     | none => s
     | some x =>
       let r := loop cfg c s (x.buf ++ b)
       let s1 := setBuf r.1 c r.2.1
-      if r.2.2 = .crash then forceClose s1 c else s1
-  | .eof c =>
-    match s.conn c with
-    | none => s
-    | some x => if x.closing then s else (logAct s c .peerClosed).upd c Conn.beginClose
+      if r.2.2 = .crash then crashClose s1 c else s1
+  | .eof c => peerClose s c
   | .lost c =>
     match s.conn c with
     | none => s
-    | some x =>
-      if x.gone then s
-      else
-        let s1 := (if x.closing then s else logAct s c .peerClosed).upd c
-                    fun x => { x.beginClose with gone := true }
-        connectionLost s1 c
+    | some x => if x.gone then s else lostConn s c
   | .lookupDone c i r =>
     match s.conn c with
     | none => s
@@ -355,36 +407,28 @@ def step (cfg : Cfg) (s : State) : Event → State
       match x.pending[i]? with
       | none => s
       | some (ident, digest) =>
-        let s0 := s.upd c fun x => { x with pending := x.pending.eraseIdx i }
-        match s0.conn c with
-        | none => s
-        | some x0 =>
-          let (s1, ok) := authenticate cfg s0 c x0 ident digest r
-          if ok then
-            let r := loop cfg c s1 x0.buf
-            let s2 := setBuf r.1 c r.2.1
-            if r.2.2 = .crash then closeT s2 c            -- on_auth_result logs it and closes
-            else if r.2.2 = .brk then s2                  -- another look-up is in flight: stay paused
-            else resumeReading s2 c
-          else s1
-  | .pause c =>
-    logAct (s.upd c fun x => { x with deadline := some (s.now + gracePeriodMs) }) c .pausedW
+        let s0 := dropPending s c i
+        let a := authenticate cfg s0 c x ident digest r
+        if a.2 then
+          let r := loop cfg c a.1 x.buf
+          let s2 := setBuf r.1 c r.2.1
+          if r.2.2 = .crash then closeT s2 c            -- on_auth_result logs it and closes
+          else if r.2.2 = .brk then s2                  -- another look-up is in flight: stay paused
+          else resumeReading s2 c
+        else a.1
+  | .pause c => armDeadline s c
   | .resume c =>
     match s.conn c with
     | none => s
-    | some x => if x.deadline.isSome then logAct (s.upd c fun x => { x with deadline := none }) c .resumedW
-                else s
+    | some x => if x.deadline.isSome then clearDeadline s c .resumedW else s
   | .fire c =>
     match s.conn c with
     | none => s
     | some x =>
       match x.deadline with
       | none => s
-      | some t =>
-        if t ≤ s.now then
-          errorClose (logAct (s.upd c fun x => { x with deadline := none }) c .deadlineFired) c
-        else s
-  | .advance ms => { s with now := s.now + ms }
+      | some t => if t ≤ s.now then errorClose (clearDeadline s c .deadlineFired) c else s
+  | .advance ms => tick s ms
 
 def run (cfg : Cfg) (es : List Event) : State := es.foldl (step cfg) init
 
